@@ -35,13 +35,15 @@ structure Hist (tr : List (Ev κ)) (o : OState κ) : Prop where
   rm     : ∀ (f : Nat) (fl : OFlight κ), o.flights f = some fl → fl.removed = true → Ev.rm fl.key f ∈ tr
   start  : ∀ (c : Nat) (ocl : OCaller κ), o.callers[c]? = some ocl → ∃ b, Ev.start c b ocl.entries ∈ tr
   credit : ∀ k, prepCount k tr + o.credit k = rmCount k tr + 1
+  canc   : ∀ c, o.cancelled c = true → Ev.cancel c ∈ tr
 
 theorem hist_init : Hist ([] : List (Ev κ)) (Obs.init : OState κ) := by
-  refine ⟨fun f => rfl, ?_, ?_, ?_, ?_, fun k => rfl⟩
+  refine ⟨fun f => rfl, ?_, ?_, ?_, ?_, fun k => rfl, ?_⟩
   · intro c ocl h; simp [Obs.init] at h
   · intro f fl r h; simp [Obs.init] at h
   · intro f fl h; simp [Obs.init] at h
   · intro c ocl h; simp [Obs.init] at h
+  · intro c h; simp [Obs.init] at h
 
 theorem mem_snoc_of_mem {α : Type} {l : List α} {a b : α} (h : a ∈ l) : a ∈ l ++ [b] :=
   List.mem_append_left _ h
@@ -74,7 +76,7 @@ theorem hist_setPc {tr : List (Ev κ)} {o : OState κ} (e : Ev κ) (c : Nat) (cl
     (hp : ∀ k, prepCount k (tr ++ [e]) = prepCount k tr) (hr : ∀ k, rmCount k (tr ++ [e]) = rmCount k tr) :
     Hist (tr ++ [e]) (setPc o c cl pc) := by
   have hs : scan (tr ++ [e]) = scan tr := by rw [scan_snoc, hsc]
-  refine ⟨?_, ?_, ?_, ?_, ?_, ?_⟩
+  refine ⟨?_, ?_, ?_, ?_, ?_, ?_, fun c' h => mem_snoc_of_mem (hH.canc c' h)⟩
   · intro f; rw [hs]; exact hH.rem f
   · intro c' ocl h
     rw [hs]
@@ -96,13 +98,14 @@ theorem hist_setPc {tr : List (Ev κ)} {o : OState κ} (e : Ev κ) (c : Nat) (cl
 
 theorem hist_step {tr : List (Ev κ)} {o o' : OState κ} {e : Ev κ} (hH : Hist tr o) (h : Obs.step o e = some o') :
     Hist (tr ++ [e]) o' := by
+  have hcanc : ∀ c, o.cancelled c = true → Ev.cancel c ∈ tr ++ [e] := fun c h => mem_snoc_of_mem (hH.canc c h)
   cases e with
   | start c b es =>
     simp only [Obs.step] at h
     by_cases hc : c = o.callers.length ∧ es ≠ []
     · rw [if_pos hc] at h; injection h with h; subst h
       obtain ⟨hc1, _⟩ := hc
-      refine ⟨?_, ?_, ?_, ?_, ?_, ?_⟩
+      refine ⟨?_, ?_, ?_, ?_, ?_, ?_, hcanc⟩
       · intro f; rw [scan_snoc]; exact hH.rem f
       · intro c' ocl hx
         rw [scan_snoc]
@@ -144,7 +147,7 @@ theorem hist_step {tr : List (Ev κ)} {o o' : OState κ} {e : Ev κ} (hH : Hist 
     · rw [if_neg hc] at h; cases h
   | prep f k r =>
     simp only [Obs.step] at h
-    by_cases hc : 0 < o.credit k ∧ o.callers.any (fun cl => cl.pc.live && hasKey cl.entries k) = true
+    by_cases hc : 0 < o.credit k ∧ o.callers.any (fun cl => (cl.pc.live || cl.pc.gaveUp) && hasKey cl.entries k) = true
     · rw [if_pos hc] at h
       have hcr := hH.credit k
       have hcredit : ∀ k', prepCount k' (tr ++ [Ev.prep f k r]) + (if k' = k then o.credit k - 1 else o.credit k') =
@@ -159,7 +162,7 @@ theorem hist_step {tr : List (Ev κ)} {o o' : OState κ} {e : Ev κ} (hH : Hist 
       cases hf : o.flights f with
       | none =>
         simp only [hf] at h; injection h with h; subst h
-        refine ⟨?_, ?_, ?_, ?_, ?_, hcredit⟩
+        refine ⟨?_, ?_, ?_, ?_, ?_, hcredit, hcanc⟩
         · intro g
           rw [scan_snoc]; simp only [scanStep]
           rw [← hH.rem g]
@@ -189,7 +192,7 @@ theorem hist_step {tr : List (Ev κ)} {o o' : OState κ} {e : Ev κ} (hH : Hist 
         simp only [hf] at h
         by_cases hk : fl0.key = k ∧ fl0.ans = none
         · rw [if_pos hk] at h; injection h with h; subst h
-          refine ⟨?_, ?_, ?_, ?_, ?_, hcredit⟩
+          refine ⟨?_, ?_, ?_, ?_, ?_, hcredit, hcanc⟩
           · intro g
             rw [scan_snoc]; simp only [scanStep]
             rw [← hH.rem g]
@@ -232,7 +235,7 @@ theorem hist_step {tr : List (Ev κ)} {o o' : OState κ} {e : Ev κ} (hH : Hist 
     cases hf : o.flights f with
     | none =>
       simp only [hf] at h; injection h with h; subst h
-      refine ⟨?_, ?_, ?_, ?_, ?_, hcredit⟩
+      refine ⟨?_, ?_, ?_, ?_, ?_, hcredit, hcanc⟩
       · intro g
         rw [scan_snoc]; simp only [scanStep]
         rw [← hH.rem g]
@@ -260,7 +263,7 @@ theorem hist_step {tr : List (Ev κ)} {o o' : OState κ} {e : Ev κ} (hH : Hist 
       simp only [hf] at h
       by_cases hk : fl0.key = k ∧ fl0.removed = false
       · rw [if_pos hk] at h; injection h with h; subst h
-        refine ⟨?_, ?_, ?_, ?_, ?_, hcredit⟩
+        refine ⟨?_, ?_, ?_, ?_, ?_, hcredit, hcanc⟩
         · intro g
           rw [scan_snoc]; simp only [scanStep]
           rw [← hH.rem g]
@@ -292,9 +295,10 @@ theorem hist_step {tr : List (Ev κ)} {o o' : OState κ} {e : Ev κ} (hH : Hist 
     | none => simp [hc] at h
     | some cl =>
       simp only [hc] at h
-      by_cases hk : cl.pc.live = true ∧ okEntries o cl.banned cl.entries ids = true
-      · rw [if_pos hk] at h; injection h with h; subst h
-        refine ⟨?_, ?_, ?_, ?_, ?_, ?_⟩
+      -- both accepting branches replace the record of c by one with the same entries and `banned := removedNow o`
+      have key : ∀ pc, Hist (tr ++ [Ev.exec c ids a]) { o with callers := o.callers.set c { cl with pc := pc, banned := removedNow o } } := by
+        intro pc
+        refine ⟨?_, ?_, ?_, ?_, ?_, ?_, hcanc⟩
         · intro f; rw [scan_snoc]; exact hH.rem f
         · intro c' ocl hx
           rw [scan_snoc]; simp only [scanStep]
@@ -317,7 +321,14 @@ theorem hist_step {tr : List (Ev κ)} {o o' : OState κ} {e : Ev κ} (hH : Hist 
           · obtain ⟨b, hb⟩ := hH.start c' ocl h2
             exact ⟨b, mem_snoc_of_mem hb⟩
         · intro k; rw [prepCount_snoc, rmCount_snoc]; exact hH.credit k
-      · rw [if_neg hk] at h; cases h
+      by_cases hk : cl.pc.live = true ∧ okEntries o cl.banned cl.entries ids = true
+      · rw [if_pos hk] at h; injection h with h; subst h
+        exact key _
+      · rw [if_neg hk] at h
+        by_cases hk2 : cl.pc = .abandoned true ∧ okEntries o cl.banned cl.entries ids = true
+        · rw [if_pos hk2] at h; injection h with h; subst h
+          exact key _
+        · rw [if_neg hk2] at h; cases h
   | ret c out =>
     simp only [Obs.step] at h
     cases hc : o.callers[c]? with
@@ -354,8 +365,32 @@ theorem hist_step {tr : List (Ev κ)} {o o' : OState κ} {e : Ev κ} (hH : Hist 
         by_cases hp : cl.pc.live = true ∧ countMismatch o cl = true
         · rw [if_pos hp] at h; injection h with h; subst h; exact key _
         · rw [if_neg hp] at h; cases h
+      | ctxErr =>
+        simp only [] at h
+        by_cases hp : o.cancelled c = true ∧ cl.pc.running = true
+        · rw [if_pos hp] at h; injection h with h; subst h; exact key _
+        · rw [if_neg hp] at h; cases h
   | crash => simp [Obs.step] at h
   | hang c => simp [Obs.step] at h
+  | cancel c =>
+    simp only [Obs.step] at h
+    by_cases hc : c < o.callers.length
+    · rw [if_pos hc] at h; injection h with h; subst h
+      refine ⟨?_, ?_, ?_, ?_, ?_, ?_, ?_⟩
+      · intro f; rw [scan_snoc]; exact hH.rem f
+      · intro c' ocl hx; rw [scan_snoc]; exact hH.ban c' ocl hx
+      · intro f fl r h1 h2; exact mem_snoc_of_mem (hH.prep f fl r h1 h2)
+      · intro f fl h1 h2; exact mem_snoc_of_mem (hH.rm f fl h1 h2)
+      · intro c' ocl hx
+        obtain ⟨b, hb⟩ := hH.start c' ocl hx
+        exact ⟨b, mem_snoc_of_mem hb⟩
+      · intro k; rw [prepCount_snoc, rmCount_snoc]; exact hH.credit k
+      · intro c' hc'
+        simp only [Bool.or_eq_true, decide_eq_true_eq] at hc'
+        rcases hc' with hc' | hc'
+        · subst hc'; simp
+        · exact mem_snoc_of_mem (hH.canc c' hc')
+    · rw [if_neg hc] at h; cases h
 
 theorem hist_run : ∀ (evs : List (Ev κ)) (tr : List (Ev κ)) (o o' : OState κ), Hist tr o → Obs.run o evs = some o' →
     Hist (tr ++ evs) o'
@@ -442,6 +477,7 @@ theorem scanStep_keeps (sc : Scan) (e : Ev κ) (c f : Nat) (h1 : sc.rem f = true
   | ret _ _ => exact ⟨h1, h2⟩
   | crash => exact ⟨h1, h2⟩
   | hang _ => exact ⟨h1, h2⟩
+  | cancel _ => exact ⟨h1, h2⟩
 
 theorem foldl_keeps (c f : Nat) : ∀ (evs : List (Ev κ)) (sc : Scan), sc.rem f = true → sc.ban c f = true →
     (evs.foldl scanStep sc).ban c f = true
@@ -461,6 +497,7 @@ theorem scanStep_rem (sc : Scan) (e : Ev κ) (f : Nat) (h1 : sc.rem f = true) : 
   | ret _ _ => exact h1
   | crash => exact h1
   | hang _ => exact h1
+  | cancel _ => exact h1
 
 theorem foldl_rem_of_mem (f : Nat) (k : κ) : ∀ (evs : List (Ev κ)) (sc : Scan), (sc.rem f = true ∨ Ev.rm k f ∈ evs) →
     (evs.foldl scanStep sc).rem f = true
@@ -493,9 +530,117 @@ theorem removedBefore_of_rm_before_start (p1 p2 : List (Ev κ)) (c f : Nat) (k :
 
 /-! ### a call that returned is finished -/
 
-theorem returned_stays (c : Nat) : ∀ (evs : List (Ev κ)) (o o' : OState κ) (cl : OCaller κ),
-    Obs.run o evs = some o' → o.callers[c]? = some cl → cl.pc = .returned →
-    ∀ e ∈ evs, (∀ ids a, e ≠ Ev.exec c ids a) ∧ (∀ out, e ≠ Ev.ret c out)
+/-- an event that is neither a frame nor a return of call c leaves c's record alone -/
+theorem step_keeps_caller {o o1 : OState κ} {x : Ev κ} {c : Nat} {cl : OCaller κ}
+    (hs : Obs.step o x = some o1) (hc : o.callers[c]? = some cl)
+    (h1 : ∀ ids a, x ≠ Ev.exec c ids a) (h2 : ∀ out, x ≠ Ev.ret c out) : o1.callers[c]? = some cl := by
+  have hlt : c < o.callers.length := (List.getElem?_eq_some_iff.1 hc).1
+  cases x with
+  | start c' b es =>
+    simp only [Obs.step] at hs
+    by_cases hh : c' = o.callers.length ∧ es ≠ []
+    · rw [if_pos hh] at hs; injection hs with hs; subst hs
+      simp only []; rw [List.getElem?_append_left hlt]; exact hc
+    · rw [if_neg hh] at hs; cases hs
+  | prep f k r =>
+    simp only [Obs.step] at hs
+    by_cases hh : 0 < o.credit k ∧ o.callers.any (fun cl => (cl.pc.live || cl.pc.gaveUp) && hasKey cl.entries k) = true
+    · rw [if_pos hh] at hs
+      cases hf : o.flights f with
+      | none => simp only [hf] at hs; injection hs with hs; subst hs; exact hc
+      | some fl0 =>
+        simp only [hf] at hs
+        by_cases hk : fl0.key = k ∧ fl0.ans = none
+        · rw [if_pos hk] at hs; injection hs with hs; subst hs; exact hc
+        · rw [if_neg hk] at hs; cases hs
+    · rw [if_neg hh] at hs; cases hs
+  | rm k f =>
+    simp only [Obs.step] at hs
+    cases hf : o.flights f with
+    | none => simp only [hf] at hs; injection hs with hs; subst hs; exact hc
+    | some fl0 =>
+      simp only [hf] at hs
+      by_cases hk : fl0.key = k ∧ fl0.removed = false
+      · rw [if_pos hk] at hs; injection hs with hs; subst hs; exact hc
+      · rw [if_neg hk] at hs; cases hs
+  | exec c' ids a =>
+    have hne : c' ≠ c := by intro e; subst e; exact h1 ids a rfl
+    simp only [Obs.step] at hs
+    cases hc' : o.callers[c']? with
+    | none => simp [hc'] at hs
+    | some cl' =>
+      simp only [hc'] at hs
+      by_cases hk : cl'.pc.live = true ∧ okEntries o cl'.banned cl'.entries ids = true
+      · rw [if_pos hk] at hs; injection hs with hs; subst hs
+        simp only []; rw [List.getElem?_set_ne hne]; exact hc
+      · rw [if_neg hk] at hs
+        by_cases hk2 : cl'.pc = .abandoned true ∧ okEntries o cl'.banned cl'.entries ids = true
+        · rw [if_pos hk2] at hs; injection hs with hs; subst hs
+          simp only []; rw [List.getElem?_set_ne hne]; exact hc
+        · rw [if_neg hk2] at hs; cases hs
+  | ret c' out =>
+    have hne : c' ≠ c := by intro e; subst e; exact h2 out rfl
+    have hset : ∀ (cl' : OCaller κ) (pc : OPC), (setPc o c' cl' pc).callers[c]? = some cl := by
+      intro cl' pc; unfold setPc; simp only []; rw [List.getElem?_set_ne hne]; exact hc
+    simp only [Obs.step] at hs
+    cases hc' : o.callers[c']? with
+    | none => simp [hc'] at hs
+    | some cl' =>
+      simp only [hc'] at hs
+      cases out with
+      | ok =>
+        simp only [] at hs
+        by_cases hp : cl'.pc = .awaiting .ok
+        · rw [if_pos hp] at hs; injection hs with hs; subst hs; exact hset _ _
+        · rw [if_neg hp] at hs; cases hs
+      | execErr =>
+        simp only [] at hs
+        by_cases hp : cl'.pc = .awaiting .err
+        · rw [if_pos hp] at hs; injection hs with hs; subst hs; exact hset _ _
+        · rw [if_neg hp] at hs; cases hs
+      | prepErr f =>
+        simp only [] at hs
+        by_cases hp : cl'.pc.live = true ∧ cl'.banned f = false
+        · rw [if_pos hp] at hs
+          cases hf : o.flights f with
+          | none => simp [hf] at hs
+          | some fl =>
+            simp only [hf] at hs
+            by_cases hq : hasKey cl'.entries fl.key = true ∧ fl.ans = some none ∧ fl.removed = true
+            · rw [if_pos hq] at hs; injection hs with hs; subst hs; exact hset _ _
+            · rw [if_neg hq] at hs; cases hs
+        · rw [if_neg hp] at hs; cases hs
+      | countErr =>
+        simp only [] at hs
+        by_cases hp : cl'.pc.live = true ∧ countMismatch o cl' = true
+        · rw [if_pos hp] at hs; injection hs with hs; subst hs; exact hset _ _
+        · rw [if_neg hp] at hs; cases hs
+      | ctxErr =>
+        simp only [] at hs
+        by_cases hp : o.cancelled c' = true ∧ cl'.pc.running = true
+        · rw [if_pos hp] at hs; injection hs with hs; subst hs; exact hset _ _
+        · rw [if_neg hp] at hs; cases hs
+  | crash => simp [Obs.step] at hs
+  | hang _ => simp [Obs.step] at hs
+  | cancel c' =>
+    simp only [Obs.step] at hs
+    by_cases hh : c' < o.callers.length
+    · rw [if_pos hh] at hs; injection hs with hs; subst hs; exact hc
+    · rw [if_neg hh] at hs; cases hs
+
+omit [DecidableEq κ] in
+theorem live_running {pc : OPC} (h : pc.live = true) : pc.running = true := by
+  cases pc with
+  | active => rfl
+  | awaiting a => rfl
+  | returned => simp [OPC.live] at h
+  | abandoned l => simp [OPC.live] at h
+
+/-- a call that has returned (a result, or its context error) never returns again, and the server receives no
+    further frame of it — except the one frame that a caller which gave up on its context had just written -/
+theorem finished_stays (c : Nat) : ∀ (evs : List (Ev κ)) (o o' : OState κ) (cl : OCaller κ),
+    Obs.run o evs = some o' → o.callers[c]? = some cl → cl.pc.running = false →
+    ∀ e ∈ evs, (∀ out, e ≠ Ev.ret c out) ∧ (cl.pc ≠ .abandoned true → ∀ ids a, e ≠ Ev.exec c ids a)
   | [], _, _, _, _, _, _ => by intro e he; simp at he
   | x :: evs, o, o', cl, h, hc, hp => by
     simp only [Obs.run] at h
@@ -503,81 +648,53 @@ theorem returned_stays (c : Nat) : ∀ (evs : List (Ev κ)) (o o' : OState κ) (
     | none => simp [hs] at h
     | some o1 =>
       simp only [hs] at h
-      have hx : (∀ ids a, x ≠ Ev.exec c ids a) ∧ (∀ out, x ≠ Ev.ret c out) := by
-        constructor
-        · intro ids a hx; subst hx
+      have hlt : c < o.callers.length := (List.getElem?_eq_some_iff.1 hc).1
+      have hnl : cl.pc.live ≠ true := fun hl => by rw [live_running hl] at hp; cases hp
+      have hx1 : ∀ out, x ≠ Ev.ret c out := by
+        intro out hx; subst hx
+        simp only [Obs.step, hc] at hs
+        cases out with
+        | ok =>
+          simp only [] at hs
+          by_cases hq : cl.pc = .awaiting .ok
+          · rw [hq] at hp; cases hp
+          · rw [if_neg hq] at hs; cases hs
+        | execErr =>
+          simp only [] at hs
+          by_cases hq : cl.pc = .awaiting .err
+          · rw [hq] at hp; cases hp
+          · rw [if_neg hq] at hs; cases hs
+        | prepErr f =>
+          simp only [] at hs
+          rw [if_neg (fun hq => hnl hq.1)] at hs; cases hs
+        | countErr =>
+          simp only [] at hs
+          rw [if_neg (fun hq => hnl hq.1)] at hs; cases hs
+        | ctxErr =>
+          simp only [] at hs
+          rw [if_neg (fun hq => by rw [hq.2] at hp; cases hp)] at hs; cases hs
+      have hx2 : cl.pc ≠ .abandoned true → ∀ ids a, x ≠ Ev.exec c ids a := by
+        intro hna ids a hx; subst hx
+        simp only [Obs.step, hc] at hs
+        rw [if_neg (fun hq => hnl hq.1), if_neg (fun hq => hna hq.1)] at hs
+        cases hs
+      have hkeep : ∃ cl1, o1.callers[c]? = some cl1 ∧ cl1.pc.running = false ∧
+          (cl.pc ≠ .abandoned true → cl1.pc ≠ .abandoned true) := by
+        by_cases hex : ∃ ids a, x = Ev.exec c ids a
+        · obtain ⟨ids, a, hx⟩ := hex; subst hx
           simp only [Obs.step, hc] at hs
-          have : ¬ (cl.pc.live = true ∧ okEntries o cl.banned cl.entries ids = true) := by
-            intro hh; rw [hp] at hh; simp [OPC.live] at hh
-          rw [if_neg this] at hs; cases hs
-        · intro out hx; subst hx
-          simp only [Obs.step, hc] at hs
-          cases out <;> simp [hp, OPC.live] at hs
-      -- the record of c is still there, still returned
-      have hkeep : ∃ cl1, o1.callers[c]? = some cl1 ∧ cl1.pc = .returned := by
-        have hlt : c < o.callers.length := (List.getElem?_eq_some_iff.1 hc).1
-        cases x with
-        | start c' b es =>
-          simp only [Obs.step] at hs
-          by_cases hh : c' = o.callers.length ∧ es ≠ []
-          · rw [if_pos hh] at hs; injection hs with hs; subst hs
-            exact ⟨cl, by simp only []; rw [List.getElem?_append_left hlt]; exact hc, hp⟩
-          · rw [if_neg hh] at hs; cases hs
-        | prep f k r =>
-          simp only [Obs.step] at hs
-          split at hs
-          · split at hs
-            · injection hs with hs; subst hs; exact ⟨cl, hc, hp⟩
-            · split at hs
-              · injection hs with hs; subst hs; exact ⟨cl, hc, hp⟩
-              · cases hs
-          · cases hs
-        | rm k f =>
-          simp only [Obs.step] at hs
-          split at hs
-          · injection hs with hs; subst hs; exact ⟨cl, hc, hp⟩
-          · split at hs
-            · injection hs with hs; subst hs; exact ⟨cl, hc, hp⟩
-            · cases hs
-        | exec c' ids a =>
-          have hne : c' ≠ c := by intro e; subst e; exact hx.1 ids a rfl
-          simp only [Obs.step] at hs
-          split at hs
-          · cases hs
-          · split at hs
-            · injection hs with hs; subst hs
-              exact ⟨cl, by simp only []; rw [List.getElem?_set_ne hne]; exact hc, hp⟩
-            · cases hs
-        | ret c' out =>
-          have hne : c' ≠ c := by intro e; subst e; exact hx.2 out rfl
-          have hset : ∀ (cl' : OCaller κ) (pc : OPC), (setPc o c' cl' pc).callers[c]? = some cl := by
-            intro cl' pc; unfold setPc; simp only []; rw [List.getElem?_set_ne hne]; exact hc
-          simp only [Obs.step] at hs
-          split at hs
-          · cases hs
-          · split at hs
-            · split at hs
-              · injection hs with hs; subst hs; exact ⟨cl, hset _ _, hp⟩
-              · cases hs
-            · split at hs
-              · injection hs with hs; subst hs; exact ⟨cl, hset _ _, hp⟩
-              · cases hs
-            · split at hs
-              · split at hs
-                · split at hs
-                  · injection hs with hs; subst hs; exact ⟨cl, hset _ _, hp⟩
-                  · cases hs
-                · cases hs
-              · cases hs
-            · split at hs
-              · injection hs with hs; subst hs; exact ⟨cl, hset _ _, hp⟩
-              · cases hs
-        | crash => simp [Obs.step] at hs
-        | hang _ => simp [Obs.step] at hs
-      obtain ⟨cl1, g1, g2⟩ := hkeep
+          rw [if_neg (fun hq => hnl hq.1)] at hs
+          by_cases hk2 : cl.pc = .abandoned true ∧ okEntries o cl.banned cl.entries ids = true
+          · rw [if_pos hk2] at hs; injection hs with hs; subst hs
+            refine ⟨{ cl with pc := .abandoned false, banned := removedNow o }, ?_, rfl, fun _ => by simp⟩
+            simp [hlt]
+          · rw [if_neg hk2] at hs; cases hs
+        · exact ⟨cl, step_keeps_caller hs hc (fun ids a hx => hex ⟨ids, a, hx⟩) hx1, hp, id⟩
+      obtain ⟨cl1, g1, g2, g3⟩ := hkeep
       intro e he
       rcases List.mem_cons.1 he with he | he
-      · subst he; exact hx
-      · exact returned_stays c evs o1 o' cl1 h g1 g2 e he
+      · subst he; exact ⟨hx1, hx2⟩
+      · have := finished_stays c evs o1 o' cl1 h g1 g2 e he
+        exact ⟨this.1, fun hna => this.2 (g3 hna)⟩
 
 end C14Obs
